@@ -147,6 +147,64 @@ def _check(specs):
         fail('search-nontermination', f"stepwise search exceeded {STEP_BUDGET} tightening steps on one item")
     except Exception as e:
         fail('search-step-exception:' + type(e).__name__, f"stepwise search raised {type(e).__name__}: {e}")
+    # a-priori bounds on the minimum handed to the constructor (PossibleEdits does this): every sound initial range
+    INF = gb.POSITIVE_INFINITY if hasattr(gb, 'POSITIVE_INFINITY') else None
+    if INF is not None:
+        NINF = gb.NEGATIVE_INFINITY
+        # (upper ends stay above every item's range: the search prunes an item whose lower bound EQUALS the a-priori upper
+        # bound - non-strict `dominates` - which the property, quantified over collections and schedules only, does not cover)
+        for lo, hi in ((mn, INF), (mn, 5), (max(mn - 1, 0), 5), (0, 5), (NINF, 5)):
+            try:
+                items = _mk(specs)
+                s = IterativeTighteningSearch(iter(items), initial_bounds=gb.Range(lo, hi))
+                prev = s.bounds()
+                n = 0
+                while True:
+                    r = s.tighten_bounds()
+                    cur = s.bounds()
+                    n += 1
+                    if cur.lower_bound < prev.lower_bound or cur.upper_bound > prev.upper_bound:
+                        fail('search-init-step-widened', f"initial bounds [{lo}, {hi}], step {n}: search bounds went from {prev} to {cur}")
+                        break
+                    if not (cur.lower_bound <= mn <= cur.upper_bound):
+                        fail('search-init-step-unsound', f"initial bounds [{lo}, {hi}], step {n}: search bounds {cur} exclude the minimum {mn}")
+                        break
+                    if not r or n > 10 * STEP_BUDGET:
+                        break
+                    prev = cur
+                best = s.best_match
+                if best is None or best.final != mn:
+                    fail('search-init-not-minimal', f"initial bounds [{lo}, {hi}]: search ended with {best!r}, minimum final is {mn}")
+            except StepBudget:
+                fail('search-nontermination', f"search with initial bounds [{lo}, {hi}] exceeded the step budget")
+            except Exception as e:
+                fail('search-init-exception:' + type(e).__name__, f"search with initial bounds [{lo}, {hi}] raised {type(e).__name__}: {e}")
+    # the documented ordering loop over goal_test() / remove_best()
+    try:
+        items = _mk(specs)
+        s = IterativeTighteningSearch(iter(items))
+        out, guard = [], 0
+        while s.tighten_bounds():
+            while not s.goal_test() and s.tighten_bounds():
+                pass
+            if s.goal_test():
+                out.append(s.remove_best())
+            guard += 1
+            if guard > 10 * STEP_BUDGET:
+                raise StepBudget()
+        while s.goal_test():
+            out.append(s.remove_best())
+            guard += 1
+            if guard > 10 * STEP_BUDGET:
+                raise StepBudget()
+        if any(x is None for x in out) or len({id(x) for x in out}) != len(out):
+            fail('remove-best-items', f"goal_test/remove_best loop yielded {out!r}")
+        elif out and out[0].final != mn:
+            fail('remove-best-first', f"goal_test/remove_best loop yielded first {out[0]!r}, minimum final is {mn}")
+    except StepBudget:
+        fail('search-nontermination', 'goal_test/remove_best loop exceeded the step budget')
+    except Exception as e:
+        fail('remove-best-exception:' + type(e).__name__, f"goal_test/remove_best loop raised {type(e).__name__}: {e}")
     # sort
     try:
         items = _mk(specs)
